@@ -1,0 +1,53 @@
+//go:build verif
+
+package provisioner
+
+import "time"
+
+// Hooks for the verification harness (/verif, property C06). Not compiled without the
+// "verif" build tag. They only expose unexported validity modifiers / validators and let
+// the harness pin the package clock; no behaviour is changed.
+
+// VerifSetNow pins the package clock (`now`) to t and returns a function restoring it.
+func VerifSetNow(t time.Time) (restore func()) {
+	old := now
+	now = func() time.Time { return t }
+	return func() { now = old }
+}
+
+// VerifProfileDefaultDuration returns profileDefaultDuration(d).
+func VerifProfileDefaultDuration(d time.Duration) CertificateModifier {
+	return profileDefaultDuration(d)
+}
+
+// VerifProfileLimitDuration returns profileLimitDuration{def, notBefore, notAfter}.
+func VerifProfileLimitDuration(def time.Duration, notBefore, notAfter time.Time) CertificateModifier {
+	return profileLimitDuration{def: def, notBefore: notBefore, notAfter: notAfter}
+}
+
+// VerifValidityValidator returns newValidityValidator(minDur, maxDur).
+func VerifValidityValidator(minDur, maxDur time.Duration) CertificateValidator {
+	return newValidityValidator(minDur, maxDur)
+}
+
+// VerifSSHValidAfterModifier returns sshCertValidAfterModifier(v).
+func VerifSSHValidAfterModifier(v uint64) SSHCertModifier { return sshCertValidAfterModifier(v) }
+
+// VerifSSHValidBeforeModifier returns sshCertValidBeforeModifier(v).
+func VerifSSHValidBeforeModifier(v uint64) SSHCertModifier { return sshCertValidBeforeModifier(v) }
+
+// VerifSSHDefaultDuration returns &sshDefaultDuration{c}.
+func VerifSSHDefaultDuration(c *Claimer) SSHCertModifier { return &sshDefaultDuration{c} }
+
+// VerifSSHLimitDuration returns &sshLimitDuration{c, notAfter}.
+func VerifSSHLimitDuration(c *Claimer, notAfter time.Time) SSHCertModifier {
+	return &sshLimitDuration{c, notAfter}
+}
+
+// VerifSSHCertValidityValidator returns &sshCertValidityValidator{c}.
+func VerifSSHCertValidityValidator(c *Claimer) SSHCertValidator {
+	return &sshCertValidityValidator{c}
+}
+
+// VerifSSHCertDefaultValidator returns &sshCertDefaultValidator{}.
+func VerifSSHCertDefaultValidator() SSHCertValidator { return &sshCertDefaultValidator{} }
